@@ -42,6 +42,7 @@ RULE_GROUPS: Dict[str, Callable] = {
     'cc.launch_order': cc.rule_launch_order,
     'cc.dispatch': cc.rule_dispatch,
     'cc.no_mutex': cc.rule_no_mutex,
+    'cc.wrapper_kind': cc.rule_wrapper_kind,
     'lk.spawn_registered': lk.rule_spawn_registered,
     'lk.run_cleanup': lk.rule_run_cleanup,
     'lk.cleanup_starts_nothing': lk.rule_cleanup_starts_nothing,
@@ -129,8 +130,10 @@ RULES: Dict[str, Tuple[str, str]] = {
     'CC-5': ('cc.dispatch', 'a synchronous body runs inline only under the non_async tag guard, otherwise in an executor; '
                             'tasks are created eagerly'),
     'CC-6': ('cc.no_mutex', 'node code never runs inside a lock / semaphore / with region'),
+    'CC-7': ('cc.wrapper_kind', 'a process wrapper generated for a node class is a coroutine function exactly when the wrapped method is'),
     'LK-1': ('lk.spawn_registered', 'every task-creating primitive registers the task, on every path, in the registry that '
                                     'run() cancels'),
+    'LK-7': ('lk.spawn_registered', 'the task registry holds strong references (the event loop keeps only weak references to tasks)'),
     'LK-2': ('lk.run_cleanup', 'after run() has spawned, return, exception and cancellation of run() all pass the cancel-all loop'),
     'LK-3': ('lk.run_cleanup', 'the cancel-all loop cancels every task that is not done and never stops early'),
     'LK-4': ('lk.cleanup_starts_nothing', 'finally bodies and cancellation handlers create no task, run no node or collaborator '
@@ -277,7 +280,7 @@ _p(PropertySpec(
 
 _p(PropertySpec(
     'C05',
-    [('ER-1', None), ('ER-2', None), ('ER-3', None), ('ER-4', None), ('ER-5', None), ('ER-6', None)],
+    [('ER-1', None), ('ER-2', None), ('ER-3', None), ('ER-4', None), ('ER-5', None), ('ER-6', None), ('LK-7', None)],
     decides='what can surface as the outcome: the chart wraps exactly Exception into an error result, the manager returns the '
             'output only after a negative error test over all tasks, task exceptions are read only in the done-and-not-cancelled '
             'typestate, every raise has an admissible provenance, no engine-internal look-up error can arise from a node result, '
@@ -291,7 +294,7 @@ _p(PropertySpec(
 
 _p(PropertySpec(
     'C06',
-    [('CC-1', None), ('CC-3', None), ('CC-4', None), ('CC-5', None), ('CC-6', None)],
+    [('CC-1', None), ('CC-3', None), ('CC-4', None), ('CC-5', None), ('CC-6', None), ('CC-7', None)],
     decides='the launch loop starts every ready node without waiting for a sibling: coroutines are only spawned, nothing but the '
             'readiness wait is awaited in the loop, readiness reads only the node\'s own inputs, the launch order is generation '
             'ordered, synchronous bodies leave the loop thread unless tagged non_async, no mutual exclusion surrounds bodies',
@@ -326,7 +329,7 @@ _p(PropertySpec(
 
 _p(PropertySpec(
     'C13',
-    [('LK-1', None), ('LK-2', None), ('LK-3', None), ('LK-4', None), ('LK-5', None), ('LK-6', None), ('ER-1', None)],
+    [('LK-1', None), ('LK-2', None), ('LK-3', None), ('LK-4', None), ('LK-5', None), ('LK-6', None), ('LK-7', None), ('ER-1', None)],
     decides='every task is created through the registry, every exit of run() (return, exception, cancellation) cancels every '
             'task that is not done, cleanup code starts no work, no handler swallows cancellation, nothing is shielded or '
             'detached, the engine\'s own cancellations are never read as an outcome',
@@ -352,11 +355,14 @@ PROPERTIES['C02'].rules.append(('WK-g', None))
 PROPERTIES['C02'].rules.append(('ST-1', None))
 PROPERTIES['C02'].rules.append(('RD-2', None))
 PROPERTIES['C02'].floors.update({'WK-g': 2, 'ST-1': 2})
+# a started one-of candidate must stay visible in every later sub-dag, or it is never launched and its owner waits forever
+PROPERTIES['C02'].rules.append(('SW-1', _mentions('filter_node')))
 
 _p(PropertySpec(
     'C03',
     [('RD-1', None), ('RD-2', None), ('RD-3', None), ('RD-4', None), ('RD-5', None), ('RD-6', None), ('SW-3', None),
-     ('ST-1', None), ('ST-2', None), ('OO-6', None), ('ER-6', None), ('PB-1', None), ('RC-6', None), ('RC-7', None), ('SH-1', _viol)],
+     ('ST-1', None), ('ST-2', None), ('OO-6', None), ('ER-6', None), ('PB-1', None), ('RC-6', None), ('RC-7', None), ('SH-1', _viol),
+     ('BD-8', None)],
     decides='the launch is gated by the readiness wait, readiness is strict over every store state (absent / hidden / Recurrent '
             'predecessors never release a node), argument names and the switch indirection agree between builder, readiness and '
             'argument delivery, the input node gets the caller\'s input_kwargs, failure objects become values only in one-of dags '
@@ -370,7 +376,8 @@ _p(PropertySpec(
 
 _p(PropertySpec(
     'C09',
-    [('SW-1', None), ('SW-3', None), ('SW-4', None), ('SW-6', None), ('WK-a', None), ('ER-5', None), ('RC-6', None), ('ST-2', None), ('BD-8', None),
+    [('SW-1', None), ('SW-3', None), ('SW-4', None), ('SW-6', None), ('WK-a', None), ('WK-b', _mentions('switch', 'case_result')),
+     ('ER-5', None), ('RC-6', None), ('ST-2', None), ('BD-8', None),
      ('WK-b', _mentions('switch', '_add_case_result')), ('RD-3', _mentions('is_switch', 'case_branch')), ('SH-1', _viol)],
     decides='laziness (every sub-dag is cut from the view without case_branch edges, whose filter is evaluated over the attribute '
             'domain), routing (readiness and argument delivery both resolve a switch to the selected case; the builder writes and '
@@ -416,7 +423,10 @@ _p(PropertySpec(
 
 _p(PropertySpec(
     'C12',
-    [('RT-1', None), ('RT-2', None), ('RT-3', None), ('RT-4', None), ('RT-5', None), ('RT-6', None)],
+    [('RT-1', None), ('RT-2', None), ('RT-3', None), ('RT-4', None), ('RT-5', None), ('RT-6', None),
+     # the attempt budget belongs to one execution: retry state written on an object that outlives the run is shared by
+     # overlapping runs of the chart (SH-1 instances about retry / attempt state only, and only when they fail)
+     ('SH-1', lambda inst: inst.verdict == 'VIOLATION' and any(w in (inst.construct + ' ' + ' '.join(inst.path)).lower() for w in ('retry', 'attempt')))],
     decides='the policy defaults (0 / 1 / (Exception,)), the handler classes around the invocation, argument agreement between body '
             'and get_default, the sleep on every retry edge, the counter idiom whose inductive invariant gives exactly `attempts` '
             'invocations, and the exits of both handlers (default only under use_default, otherwise re-raise; no retry of '
@@ -466,7 +476,7 @@ _p(PropertySpec(
 
 _p(PropertySpec(
     'C17',
-    [('EX-1', None), ('EX-2', None), ('EX-3', None), ('EX-4', None), ('EX-5', None), ('CC-5', None)],
+    [('EX-1', None), ('EX-2', None), ('EX-3', None), ('EX-4', None), ('EX-5', None), ('CC-5', None), ('CC-7', None)],
     decides='pool validation precedes the run manager; for all 8 kinds of node (coroutine x process tag x non_async tag) the pool '
             'that run_node fetches is one that DAG.run validated, following the flags from _is_executor_needed through build() '
             'and DAG(...); is_ready raises exactly when a pool or its manager is missing or shut down; every dispatch leaf passes '
